@@ -1,0 +1,191 @@
+//go:build verif
+
+package pipeline
+
+// Verification trace hooks.  Built only with -tags verif.  Every hook records
+// an event with a global logical stamp; the events of one run, sorted by
+// stamp, form a history that is replayed through the Coq model of the
+// pipeline (verif/coq/C42/Model.v).  Stamping discipline:
+//   - channel sends, and checks that found the context NOT cancelled, carry a
+//     stamp taken before the operation (verifStamp + verifTraceAt);
+//   - channel receives, and observations of a cancelled context / closed
+//     channel, carry a stamp taken after the operation (verifTrace);
+//   - updates and reads of the outstanding counter are bracketed by a global
+//     lock (verifLock .. verifTraceUnlock) and are therefore exact.
+// The sink may block: the harness uses that to hold a goroutine at a hook.
+
+import (
+	"context"
+	"errors"
+	"runtime"
+	"sync"
+	"sync/atomic"
+	"time"
+)
+
+const (
+	evSubBegin = iota
+	evSubOk
+	evSubFail
+	evSubFailStop
+	evStopCancel
+	evStopClose0
+	evStopClose1
+	evStopClose2
+	evStopClose3
+	evPCRead
+	evWTake
+	evWProc
+	evWErrSent
+	evWErrAbort
+	evWPut
+	evWPutAbort
+	evWExit
+	evATake
+	evADropCancel
+	evANext
+	evABuffer
+	evAErrSent
+	evAErrAbort
+	evASkip
+	evANotVal
+	evACancelled
+	evABegin
+	evAEnd
+	evAPop
+	evAPendStop
+	evAPendStopCancel
+	evAFwdSend
+	evAFwdDec
+	evAFwdDrop
+	evAFwdErr
+	evAFwdErrDrop
+	evAExit
+)
+
+// VerifEvent is one trace event.
+type VerifEvent struct {
+	Stamp uint64 // global logical time
+	Gid   uint64 // goroutine id
+	Kind  int    // ev* constant
+	Stage int    // 0 decode, 1 validate, -1 n/a
+	Seq   uint64 // the item's sequence number (or 0)
+	Arg   int    // kind-specific (process result, counter value, apply error flag)
+}
+
+var (
+	verifClock atomic.Uint64
+	verifMu    sync.Mutex
+	verifSink  atomic.Pointer[func(VerifEvent)]
+	// verifValidate, if set, decides the validation verdict of a decoded item
+	// instead of ledger.VerifyBlock (block validity is input data of the model).
+	verifValidate atomic.Pointer[func(seq uint64, slot uint64) error]
+)
+
+// VerifSetSink installs (or, with nil, removes) the trace sink.
+func VerifSetSink(f func(VerifEvent)) {
+	if f == nil {
+		verifSink.Store(nil)
+		return
+	}
+	verifSink.Store(&f)
+}
+
+// VerifSetValidate installs (or removes) the validation verdict function.
+func VerifSetValidate(f func(seq uint64, slot uint64) error) {
+	if f == nil {
+		verifValidate.Store(nil)
+		return
+	}
+	verifValidate.Store(&f)
+}
+
+// VerifStamp returns a fresh stamp (for events recorded by the harness itself).
+func VerifStamp() uint64 { return verifClock.Add(1) }
+
+// VerifGid returns the calling goroutine's id.
+func VerifGid() uint64 { return verifGid() }
+
+func verifGid() uint64 {
+	var buf [40]byte
+	n := runtime.Stack(buf[:], false)
+	// "goroutine 123 ["
+	var id uint64
+	for i := len("goroutine "); i < n && buf[i] >= '0' && buf[i] <= '9'; i++ {
+		id = id*10 + uint64(buf[i]-'0')
+	}
+	return id
+}
+
+func verifStageId(stage Stage) int {
+	switch stage.(type) {
+	case *DecodeStage:
+		return 0
+	case *ValidateStage:
+		return 1
+	}
+	return -1
+}
+
+func verifEmit(ev VerifEvent) {
+	if f := verifSink.Load(); f != nil {
+		ev.Gid = verifGid()
+		(*f)(ev)
+	}
+}
+
+func verifStamp() uint64 { return verifClock.Add(1) }
+func verifLock()         { verifMu.Lock() }
+func verifUnlock()       { verifMu.Unlock() }
+
+func verifTrace(kind int, stage Stage, seq uint64, arg int) {
+	verifEmit(VerifEvent{Stamp: verifClock.Add(1), Kind: kind, Stage: verifStageId(stage), Seq: seq, Arg: arg})
+}
+
+func verifTraceAt(st uint64, kind int, stage Stage, seq uint64) {
+	verifEmit(VerifEvent{Stamp: st, Kind: kind, Stage: verifStageId(stage), Seq: seq})
+}
+
+// verifTraceUnlock stamps inside the critical section opened by verifLock,
+// releases it, and only then calls the (possibly blocking) sink.
+func verifTraceUnlock(kind int, seq uint64) {
+	st := verifClock.Add(1)
+	verifMu.Unlock()
+	verifEmit(VerifEvent{Stamp: st, Kind: kind, Stage: -1, Seq: seq})
+}
+
+// process results: 0 ok, 1 error, 2 skipped because the context was cancelled,
+// 3 passed through untouched (validate stage, item not decoded)
+func verifTraceProc(stage Stage, item *BlockItem, err error) {
+	res := 0
+	switch {
+	case err != nil && (errors.Is(err, context.Canceled) || errors.Is(err, context.DeadlineExceeded)):
+		res = 2
+	case err != nil:
+		res = 1
+	case verifStageId(stage) == 1 && !item.IsDecoded():
+		res = 3
+	}
+	verifTrace(evWProc, stage, item.SequenceNumber(), res)
+}
+
+func verifB(b bool) int {
+	if b {
+		return 1
+	}
+	return 0
+}
+
+// verifValidateOverride replaces the cryptographic verdict of the validate
+// stage by the installed verdict function; everything else in the stage and
+// in the pipeline runs unchanged.
+func verifValidateOverride(item *BlockItem) (bool, error) {
+	f := verifValidate.Load()
+	if f == nil {
+		return false, nil
+	}
+	start := time.Now()
+	err := (*f)(item.SequenceNumber(), item.Block().SlotNumber())
+	item.SetValidation(err == nil, "", err, time.Since(start))
+	return true, err
+}
